@@ -2,7 +2,7 @@
    non-vacuity examples and the witnesses of the known findings F3, F4, F5 (the model reproduces
    what the real crate does; the same scenarios + schedules are replayed on the real code by the
    checks, corpus/*_known_*.txt). *)
-From RS Require Import Base Channel Pipeline Selector Script World Instance Hist WorldSubs WorldSids WorldForward WorldRegistered.
+From RS Require Import Base Channel Pipeline Selector Script World Instance Hist WorldSubs WorldSids WorldForward WorldRegistered WorldFoldDyn.
 
 Definition sc0 : scripts := mkScripts [mkRscript 0%N true []] [] [].
 Definition cfg0 := script_config sc0 16 Block.
@@ -131,3 +131,13 @@ Fixpoint live_at_snapshots (sid : N) (h : list (event (State := sstate))) : list
 Example registered_subscriber_exists :
   live_at_snapshots 7%N (w_hist (drive 400 w_reg)) = [true; true].
 Proof. vm_compute. reflexivity. Qed.
+
+(* ---- non-vacuity of C01_fold_runtime_registration / C07_registered_never_left_out: a reducer
+   added at run time between two dispatches takes part in the second action only ---- *)
+Definition w_dyn := scenario_world sc0 16 Block [0%N] [] []
+  [[CDispatch EStoreImpl 1%N; CGetState; CAddReducer 5%N; CDispatch EStoreImpl 2%N]].
+Example runtime_registration_exists :
+  let w := drive 400 w_dyn in
+  w_state w = [(0, 1); (0, 2); (5, 2)]%N /\ w_reducers w = [0; 5]%N /\
+  reds_all [0%N] (w_hist w) = [0; 5]%N /\ length (writes (w_hist w)) = 2.
+Proof. vm_compute. repeat split. Qed.
